@@ -7,8 +7,10 @@ import (
 	"encoding/json"
 	"fmt"
 	"os"
+	"strings"
 	"time"
 
+	"github.com/smart-core-os/sc-golang/internal/verifhook"
 	"github.com/smart-core-os/sc-golang/verifharness/lib"
 )
 
@@ -27,6 +29,9 @@ func main() {
 	latMon := newLatencyMonitor(res)
 	latDone := make(chan map[string]int64, 1)
 	go func() { latDone <- runLatencyCases(f, latMon) }() // mostly waiting as well
+	slowMon := newSlowReaderMonitor(res)
+	slowDone := make(chan struct{})
+	go func() { defer close(slowDone); runSlowReader(f, slowMon) }()
 	timed := func(name string, run func()) {
 		t0 := time.Now()
 		run()
@@ -40,6 +45,10 @@ func main() {
 	timed("collection-subscribers", func() { runCollectionPipelines(f, res, drv) })
 	timed("backpressure-subscriber", func() { runBackpressure(f, res, drv) })
 	timed("mixed-subscribers", func() { runMixed(f, res, drv) })
+	timed("bus-overlapping-sends", func() { runBus(f, res, drv) })
+	timed("two-writers", func() { runTwoWriters(f, res) })
+	timed("slow-reader (rest of it)", func() { <-slowDone })
+	timed("held-up-delete", func() { runHeldUpDelete(f, res, drv) })
 	timed("writers-and-subscribers (rest of it)", func() {
 		for k, v := range <-latDone {
 			res.Extra[k] = v
@@ -138,6 +147,40 @@ func replay(f lib.Flags) int {
 		}
 		obs := c.runCode("")
 		fmt.Printf("replay xrun %s -> %s (received %v)\n", c.key(), obs.answer(), obs.Received)
+		c.monitor(m, obs)
+	case "srun":
+		var c srunCase
+		if err := json.Unmarshal(raw, &c); err != nil {
+			lib.Fatal(err)
+		}
+		obs := c.runCode(nil)
+		fmt.Printf("replay srun %s -> %s (list %s)\n", c.key(), strings.Join(obs.Got, ";"), obs.Listed)
+		c.monitor(m, obs)
+	case "prun":
+		var c prunCase
+		if err := json.Unmarshal(raw, &c); err != nil {
+			lib.Fatal(err)
+		}
+		obs := c.runCode()
+		fmt.Printf("replay prun %s -> %v (holds %v)\n", c.key(), obs.Streams, obs.Listed)
+		c.monitor(m, obs)
+	case "yrun":
+		var c yrunCase
+		if err := json.Unmarshal(raw, &c); err != nil {
+			lib.Fatal(err)
+		}
+		verifhook.Set(xrunHook)
+		obs := c.runCode()
+		fmt.Printf("replay yrun %s -> %v\n", c.key(), obs.Received)
+		c.monitor(m, obs)
+	case "busrun":
+		var c busCase
+		if err := json.Unmarshal(raw, &c); err != nil {
+			lib.Fatal(err)
+		}
+		verifhook.Set(xrunHook)
+		obs, _ := c.runConfirmed("")
+		fmt.Printf("replay busrun %s -> %s\n", c.key(), obs.answer())
 		c.monitor(m, obs)
 	case "latency":
 		var c latencyCase
